@@ -410,8 +410,10 @@ Proof.
 Qed.
 
 (* loss-function approximation; eps = residual guaranteed by the root finder *)
+(* the root finder's guarantee is assumed only AT THE CALL THAT PRODUCED the returned r (a residual bound for every right-hand side,
+   negative ones included, is met by no non-negative loss function) *)
 Theorem lossfn_fixed_point eps se fuel r Qn :
-  (forall rhs x0, - eps <= n1 (solve rhs x0) - rhs <= eps) ->
+  (forall Qp rp, r = solve (h * Qp / (h + p)) rp -> - eps <= n1 r - h * Qp / (h + p) <= eps) ->
   r_q_lossfn sqrtf n2 solve h p K lam tol fuel = Some (r, Qn) ->
   (let X := 2 * (K * lam + (h + p) * n2 r) / h in - se <= sqrtf X * sqrtf X - X <= se) ->
   - (h * se) <= h * (Qn * Qn) - 2 * (K * lam + (h + p) * n2 r) <= h * se /\
@@ -422,7 +424,7 @@ Proof.
   - rewrite HQ. unfold lf_Q. set (X := 2 * (K * lam + (h + p) * n2 r) / h) in *.
     assert (EX : h * X == 2 * (K * lam + (h + p) * n2 r)) by (unfold X; field; lra).
     set (A := sqrtf X * sqrtf X) in *. nra.
-  - exists Qp. split; [exact HdQ|]. rewrite Hr. unfold lf_r. apply Hsolve.
+  - exists Qp. split; [exact HdQ|]. apply (Hsolve Qp rp). rewrite Hr. reflexivity.
 Qed.
 
 (* ---- (iv) EOQB and EOQ+SS compositions ---- *)
